@@ -35,6 +35,9 @@ static ModelSpec genModel(Rng &rng, bool twoPinOnly) {
     for (int j = 0; j < d; ++j) {
       t.c.push_back((int)rng.range(0, m.nc - 1));
       t.o.push_back((float)rng.range(-10, 10) * mag);
+      // pin offsets are data of the same kind as the fixed positions: the rounding of 9216 +- x in single precision is
+      // relative to 9216 even when every fixed pin sits at 0
+      m.span = std::max(m.span, (double)std::fabs(t.o.back()));
     }
     t.w = (float)rng.pick(std::vector<double>{0.25, 0.5, 1, 1.5, 2, 2.5, 3, 0.125, 7});
     t.mn = (float)rng.range(-200, 200) * mag;
